@@ -301,3 +301,17 @@ PROPS["C07"] = {
          "checks": {"quick": 2500, "thorough": 40000}, "shards": {"quick": 4, "thorough": 16}},
     ],
 }
+
+PROPS["C10"] = {
+    "level": "exploration",
+    "rule": ("an in-process scripted client (runInProcess) driven through runClient: 1-8 uniquely named requests from 1-4 concurrent sender goroutines with drawn yield points and GOMAXPROCS in {1,4,16}; the client's intended output is a byte string of answers in a drawn order with an optionally injected duplicate / unknown name / oversized prefix / garbage frame and an optional cut offset over every byte of it, after which the client returns nil or an error; the client reads stdin (answering only received requests) or leaves it unread. "
+             "Oracle over the recorded history: callback exactly once for every send that returned nil, never for a send that failed, success only with that test's own response and only if the client wrote a complete answer, answers written before the first fault are delivered, later sends refused, isRunning() false after the process returned, fault reported by waitForResponses, everything done within 60 s (the harness owns all delays, so a hang is a violation and the goroutine dump is the replay artefact). "
+             "Non-trivial: >=2 senders with a cut strictly inside the output leaving >=1 answered and >=1 pending request, or an injected duplicate/unknown after >=1 valid answer. Thorough tier builds with -race."),
+    "assumptions": ["a silent client (no output, keeps running) is bounded by the runner's fixed 20 s read timeout and is not generated",
+                    "when the client does not read stdin an answer may precede the registration of its request; only exactly-once and no-phantom-success are asserted then"],
+    "units": [
+        {"name": "C10DuplicateSend", "pkg": CC, "test": "TestVerifC10DuplicateSend", "kind": "enum"},
+        {"name": "C10Multiplexer", "pkg": CC, "test": "TestVerifC10Multiplexer", "kind": "rapid", "race": {"quick": False, "thorough": True},
+         "checks": {"quick": 5000, "thorough": 12000}, "shards": {"quick": 4, "thorough": 16}, "timeout": {"quick": 900, "thorough": 5400}},
+    ],
+}
